@@ -5,6 +5,7 @@ C15 (A) — object-lifetime logic of `Avoid::Router`: property theorems over the
 -/
 import AdaptaVerif.Lemmas.LifecycleFault
 import AdaptaVerif.Lemmas.LifecycleCheckpoints
+import AdaptaVerif.Lemmas.LifecycleClusterRefs
 namespace AdaptaVerif.Props.C15
 open AdaptaVerif.Model.Lifecycle AdaptaVerif.Spec.Lifecycle AdaptaVerif.Lemmas.Lifecycle
 
@@ -273,19 +274,19 @@ theorem clusters_released (h : List Op) (hl : LegalDocHist h = true) (hdead : (r
 /-- non-vacuity: clusters created before and after shapes, one re-polygonised, one deleted in the middle,
     two alive at `~Router`; all three ids are created once and freed once, and the history is even
     strictly legal, so `no_leak` / `all_released` apply to it -/
-example : LegalHist [.newCluster 1, .newShape 2, .newCluster 3, .processTransaction, .setClusterPoly 1,
-      .newCluster 4, .deleteCluster 3, .deleteShape 2, .deleteRouter] = true ∧
-    (run [.newCluster 1, .newShape 2, .newCluster 3, .processTransaction, .setClusterPoly 1,
-      .newCluster 4, .deleteCluster 3, .deleteShape 2]).clusters.map (·.id) = [1, 4] ∧
-    (run [.newCluster 1, .newShape 2, .newCluster 3, .processTransaction, .setClusterPoly 1,
-      .newCluster 4, .deleteCluster 3, .deleteShape 2, .deleteRouter]).freed = [3, 2, 1, 4] ∧
-    (run [.newCluster 1, .newShape 2, .newCluster 3, .processTransaction, .setClusterPoly 1,
-      .newCluster 4, .deleteCluster 3, .deleteShape 2, .deleteRouter]).leaked = [] := by decide
+example : LegalHist [.newCluster 1 [], .newShape 2, .newCluster 3 [], .processTransaction, .setClusterPoly 1 [],
+      .newCluster 4 [], .deleteCluster 3, .deleteShape 2, .deleteRouter] = true ∧
+    (run [.newCluster 1 [], .newShape 2, .newCluster 3 [], .processTransaction, .setClusterPoly 1 [],
+      .newCluster 4 [], .deleteCluster 3, .deleteShape 2]).clusters.map (·.id) = [1, 4] ∧
+    (run [.newCluster 1 [], .newShape 2, .newCluster 3 [], .processTransaction, .setClusterPoly 1 [],
+      .newCluster 4 [], .deleteCluster 3, .deleteShape 2, .deleteRouter]).freed = [3, 2, 1, 4] ∧
+    (run [.newCluster 1 [], .newShape 2, .newCluster 3 [], .processTransaction, .setClusterPoly 1 [],
+      .newCluster 4 [], .deleteCluster 3, .deleteShape 2, .deleteRouter]).leaked = [] := by decide
 
 /-- a cluster id cannot be reused while the router lives, and a deleted cluster cannot be used again -/
-example : LegalDocHist [.newCluster 1, .newShape 1] = false ∧
-    LegalDocHist [.newCluster 1, .deleteCluster 1, .setClusterPoly 1] = false ∧
-    LegalDocHist [.newCluster 1, .deleteCluster 1, .deleteCluster 1] = false := by decide
+example : LegalDocHist [.newCluster 1 [], .newShape 1] = false ∧
+    LegalDocHist [.newCluster 1 [], .deleteCluster 1, .setClusterPoly 1 []] = false ∧
+    LegalDocHist [.newCluster 1 [], .deleteCluster 1, .deleteCluster 1] = false := by decide
 
 /-- **The machine as the code was before /repo def6b3d (`stepOld`: `deleteCluster` only unlinks, `~Router`
     ignores `clusterRefs`) violates `no_leak`, `all_released`, `clusters_linked` and `clusters_released`**
@@ -296,29 +297,29 @@ example : LegalDocHist [.newCluster 1, .newShape 1] = false ∧
     the wrong machine; the machine that matches the reverted code is refuted here by evaluation. -/
 theorem pre_fix_router_leaks_clusters :
     -- (a) cluster alive at ~Router
-    (LegalHistOld [.newCluster 1, .deleteRouter] = true ∧
-     (runOld [.newCluster 1, .deleteRouter]).alive = false ∧
-     (runOld [.newCluster 1, .deleteRouter]).leaked = [1] ∧
-     ¬ AllReleased (runOld [.newCluster 1, .deleteRouter]) ∧
-     ¬ ClustersReleased (runOld [.newCluster 1, .deleteRouter])) ∧
+    (LegalHistOld [.newCluster 1 [], .deleteRouter] = true ∧
+     (runOld [.newCluster 1 [], .deleteRouter]).alive = false ∧
+     (runOld [.newCluster 1 [], .deleteRouter]).leaked = [1] ∧
+     ¬ AllReleased (runOld [.newCluster 1 [], .deleteRouter]) ∧
+     ¬ ClustersReleased (runOld [.newCluster 1 [], .deleteRouter])) ∧
     -- (b) cluster deleted with Router::deleteCluster, then ~Router
-    (LegalHistOld [.newCluster 1, .deleteCluster 1, .deleteRouter] = true ∧
-     (runOld [.newCluster 1, .deleteCluster 1, .deleteRouter]).leaked = [1] ∧
-     (runOld [.newCluster 1, .deleteCluster 1, .deleteRouter]).freed = [] ∧
-     ¬ ClustersLinked (runOld [.newCluster 1, .deleteCluster 1])) ∧
+    (LegalHistOld [.newCluster 1 [], .deleteCluster 1, .deleteRouter] = true ∧
+     (runOld [.newCluster 1 [], .deleteCluster 1, .deleteRouter]).leaked = [1] ∧
+     (runOld [.newCluster 1 [], .deleteCluster 1, .deleteRouter]).freed = [] ∧
+     ¬ ClustersLinked (runOld [.newCluster 1 [], .deleteCluster 1])) ∧
     -- (c) the current machine on the same histories
-    (LegalHist [.newCluster 1, .deleteRouter] = true ∧
-     (run [.newCluster 1, .deleteRouter]).leaked = [] ∧
-     LegalHist [.newCluster 1, .deleteCluster 1, .deleteRouter] = true ∧
-     (run [.newCluster 1, .deleteCluster 1, .deleteRouter]).leaked = [] ∧
-     (run [.newCluster 1, .deleteCluster 1, .deleteRouter]).freed = [1]) := by
+    (LegalHist [.newCluster 1 [], .deleteRouter] = true ∧
+     (run [.newCluster 1 [], .deleteRouter]).leaked = [] ∧
+     LegalHist [.newCluster 1 [], .deleteCluster 1, .deleteRouter] = true ∧
+     (run [.newCluster 1 [], .deleteCluster 1, .deleteRouter]).leaked = [] ∧
+     (run [.newCluster 1 [], .deleteCluster 1, .deleteRouter]).freed = [1]) := by
   refine ⟨⟨by decide, by decide, by decide, ?_, ?_⟩, ⟨by decide, by decide, by decide, ?_⟩, by decide⟩
   · intro h; have := h.2 1 (by decide); revert this; decide
   · intro h; have := h.2; revert this; decide
-  · intro h; have := h ⟨1, false⟩ (by decide); revert this; decide
+  · intro h; have := h ⟨1, false, []⟩ (by decide); revert this; decide
 
 /-! ### P8 — API calls without lifetime effect, and `ConnRef::setRoutingType`.  `apiRouter` / `apiConn` /
-`apiObst` / `setClusterPoly` are the identity of the model on a legal call; all theorems above quantify
+`apiObst` are the identity of the model on a legal call (`setClusterPoly` only replaces the cluster's references); all theorems above quantify
 over histories that contain them anywhere.  `touchConn` queues a bare ConnChange through
 `Router::modifyConnector(conn)`: it is processed like every other queue entry and changes no live set. -/
 
@@ -326,9 +327,8 @@ over histories that contain them anywhere.  `touchConn` queues a bare ConnChange
 theorem api_calls_are_identity (s : St) :
     (LegalDoc s .apiRouter = true → step s .apiRouter = s) ∧
     (∀ c, LegalDoc s (.apiConn c) = true → step s (.apiConn c) = s) ∧
-    (∀ o, LegalDoc s (.apiObst o) = true → step s (.apiObst o) = s) ∧
-    (∀ k, LegalDoc s (.setClusterPoly k) = true → step s (.setClusterPoly k) = s) := by
-  refine ⟨?_, ?_, ?_, ?_⟩
+    (∀ o, LegalDoc s (.apiObst o) = true → step s (.apiObst o) = s) := by
+  refine ⟨?_, ?_, ?_⟩
   · intro h
     simp only [LegalDoc, Bool.and_true] at h
     simp [step, h]
@@ -338,9 +338,6 @@ theorem api_calls_are_identity (s : St) :
   · intro o h
     simp only [LegalDoc, Bool.and_eq_true] at h
     simp [step, h.1, h.2.1]
-  · intro k h
-    simp only [LegalDoc, Bool.and_eq_true] at h
-    simp [step, h.1, h.2]
 
 /-- non-vacuity, and `touchConn` in both transaction modes: the bare ConnChange stays queued with
     transactions on and is processed at once with transactions off; a connector deleted while its bare
@@ -351,5 +348,63 @@ example : LegalHist [.newShape 1, .newConn 2 none none true, .processTransaction
       = [{ type := .connChange, obj := 2 }] ∧
     (run [.newShape 1, .newConn 2 none none true, .processTransaction, .touchConn 2, .deleteConn 2]).actions = [] ∧
     (run [.setTransactionUse false, .newConn 2 none none true, .touchConn 2]).actions = [] := by decide
+
+/-! ### P9 — cluster boundaries that reference obstacle vertices (`Avoid::ReferencingPolygon`: a boundary point
+that carries an obstacle id is stored as a pointer to that obstacle's polygon plus a vertex number, so that the
+boundary follows the shape).  `Cluster.refs` are the referenced obstacles; `St.routeClusters` — part of every
+transaction that does something — records in `refFaults` each reference of a linked cluster that points into a freed
+obstacle at the moment the router reads the boundary.
+
+Invariant carried between operations (`Lemmas.Lifecycle.RcOk`): while the router lives every reference names an
+allocated obstacle that has no removal queued; a transaction only frees obstacles with a queued removal
+(`hasObst_processActions`), so nothing dangles when `routeClusters` runs.  Strict legality adds restriction K6 to
+`deleteShape` / `deleteJunction` (no cluster boundary references the obstacle); documented legality already demands
+that a new boundary only references obstacles the caller may still use. -/
+
+/-- K6: a documented-legal history in which a cluster boundary references the corners of a shape that is then
+    deleted: the next transaction reads the freed polygon.  Deleting (or re-polygonising) the cluster first is
+    strictly legal and clean. -/
+theorem k6_cluster_boundary_references_deleted_shape :
+    LegalDocHist [.newShape 1, .processTransaction, .newCluster 2 [1], .deleteShape 1, .processTransaction] = true ∧
+    LegalHist [.newShape 1, .processTransaction, .newCluster 2 [1], .deleteShape 1, .processTransaction] = false ∧
+    (run [.newShape 1, .processTransaction, .newCluster 2 [1], .deleteShape 1, .processTransaction]).refFaults = [1] ∧
+    LegalHist [.newShape 1, .processTransaction, .newCluster 2 [1], .deleteCluster 2, .deleteShape 1,
+      .processTransaction, .deleteRouter] = true ∧
+    (run [.newShape 1, .processTransaction, .newCluster 2 [1], .deleteCluster 2, .deleteShape 1,
+      .processTransaction, .deleteRouter]).refFaults = [] ∧
+    LegalHist [.newShape 1, .newShape 3, .processTransaction, .newCluster 2 [1], .setClusterPoly 2 [3],
+      .deleteShape 1, .processTransaction, .deleteRouter] = true ∧
+    (run [.newShape 1, .newShape 3, .processTransaction, .newCluster 2 [1], .setClusterPoly 2 [3],
+      .deleteShape 1, .processTransaction, .deleteRouter]).refFaults = [] := by decide
+
+/-- a boundary cannot reference a shape whose addition is still queued (`ReferencingPolygon`'s constructor asserts
+    that it finds the id in `m_obstacles`) or one already handed to `deleteShape` -/
+example : LegalDocHist [.newShape 1, .newCluster 2 [1]] = false ∧
+    LegalDocHist [.newShape 1, .processTransaction, .deleteShape 1, .newCluster 2 [1]] = false ∧
+    LegalDocHist [.newShape 1, .processTransaction, .moveShape 1, .newCluster 2 [1]] = true := by decide
+
+/-- in a strictly legal history the router never reads a cluster-boundary reference into a freed obstacle -/
+theorem no_dangling_cluster_ref (h : List Op) (hl : LegalHist h = true) : NoDanglingClusterRef (run h) :=
+  (rcOk_run h hl).nofault
+
+/-- … because, while the router lives, every referenced obstacle is allocated and has no removal queued -/
+theorem cluster_refs_valid (h : List Op) (hl : LegalHist h = true) : ClusterRefsValid (run h) := by
+  intro hal k hk r hr
+  obtain ⟨h1, h2⟩ := (rcOk_run h hl).rc hal k hk r hr
+  refine ⟨h1, ?_, ?_⟩
+  · simp only [St.hasAction, List.any_eq_false, Bool.and_eq_true, beq_iff_eq, not_and]
+    intro a ha hty e
+    exact h2 a ha (by simp [isRemove, hty]) e
+  · simp only [St.hasAction, List.any_eq_false, Bool.and_eq_true, beq_iff_eq, not_and]
+    intro a ha hty e
+    exact h2 a ha (by simp [isRemove, hty]) e
+
+/-- non-vacuity: references held across moves of the referenced shapes, a queued removal of an unreferenced
+    shape, transactions switched off, the cluster alive at `~Router` -/
+example : LegalHist [.newShape 1, .newShape 3, .newShape 5, .processTransaction, .newCluster 2 [1, 3], .moveShape 1,
+      .deleteShape 5, .setTransactionUse false, .moveShape 3, .newCluster 4 [3], .deleteCluster 2, .deleteRouter] = true ∧
+    ((run [.newShape 1, .newShape 3, .newShape 5, .processTransaction, .newCluster 2 [1, 3], .moveShape 1,
+      .deleteShape 5, .setTransactionUse false, .moveShape 3, .newCluster 4 [3]]).clusters.map (·.refs))
+      = [[1, 3], [3]] := by decide
 
 end AdaptaVerif.Props.C15
